@@ -144,6 +144,60 @@ Proof.
 Qed.
 
 (* ------------------------------------------------------------------ *)
+(* the unsigned attachments never matter                                *)
+
+Lemma conflict_unsigned_invariant a b e1 c1 e2 c2 :
+  is_conflict (with_unsigned e1 c1 a) (with_unsigned e2 c2 b) = is_conflict a b.
+Proof. reflexivity. Qed.
+
+(* two messages that agree on everything that is signed or recovered from the
+   signature are interchangeable for the predicate *)
+Definition same_signed (a a' : msg) : Prop :=
+  signer a = signer a' /\ height a = height a' /\ round a = round a' /\ mkind a = mkind a' /\
+  vtype a = vtype a' /\ nid a = nid a' /\ hash a = hash a'.
+
+Lemma same_signed_with_unsigned a a' :
+  same_signed a a' -> a' = with_unsigned (unsigned_ext a') (cost a') a.
+Proof.
+  destruct a, a'. unfold same_signed, with_unsigned. cbn.
+  intros (?&?&?&?&?&?&?). subst. reflexivity.
+Qed.
+
+Lemma conflict_same_signed a a' b b' :
+  same_signed a a' -> same_signed b b' -> is_conflict a b = is_conflict a' b'.
+Proof.
+  intros Ha Hb. rewrite (same_signed_with_unsigned _ _ Ha), (same_signed_with_unsigned _ _ Hb).
+  symmetry. apply conflict_unsigned_invariant.
+Qed.
+
+(* one signed message with its unsigned part rewritten is never evidence *)
+Lemma conflict_rewritten_copy a a' : same_signed a a' -> is_conflict a a' = false.
+Proof.
+  intros H. rewrite <- (conflict_irrefl a). symmetry. apply conflict_same_signed; auto.
+  unfold same_signed. repeat split; reflexivity.
+Qed.
+
+(* the seeded change C06_1: votes compared by EqualExceptSigs, whose round-decision
+   digest also covers the (unsigned) NTSVoteBases, instead of by the signed hash.
+   In the model the digest is injective in (hash, unsigned_ext) at best; this variant
+   reports a rewritten copy of ONE signed precommit. *)
+Definition vote_conflict_extbug (v v2 : msg) : bool :=
+  if negb (match_nid (nid v) (nid v2)) then false else
+  if negb (vtype v2 =? vtype v)
+     || negb (height v2 =? height v)%Z
+     || negb (round v2 =? round v)%Z
+     || negb (bytes_eqb (signer v2) (signer v)) then false
+  else negb (bytes_eqb (hash v) (hash v2) && bytes_eqb (unsigned_ext v) (unsigned_ext v2)).
+
+Definition extbug_a : msg := mkMsg [1;2;3] 10 0 KVote 1 1 [170;1] 500 [51].
+Definition extbug_b : msg := mkMsg [1;2;3] 10 0 KVote 1 1 [170;1] 500 [68].
+
+Lemma extbug_refuted :
+  same_signed extbug_a extbug_b /\
+  vote_conflict_extbug extbug_a extbug_b = true /\ is_conflict extbug_a extbug_b = false.
+Proof. vm_compute. repeat split; reflexivity. Qed.
+
+(* ------------------------------------------------------------------ *)
 (* the defect repaired by b95d1c1: the receiver's network id read twice *)
 
 Definition vote_conflict_nidbug (v v2 : msg) : bool :=
